@@ -52,6 +52,11 @@ func runC03(t *testing.T, r *engine.Run) {
 		return
 	}
 	wd := newWorld(tp, nil)
+	defer func() {
+		if wd.raced {
+			r.Probe("pushrace_tagged_run")
+		}
+	}()
 	nmut := 2 + tp.Choose(14, "nmut")
 	if tier == "thorough" {
 		nmut = 2 + tp.Choose(30, "nmut2")
